@@ -55,7 +55,10 @@ TCEnd == /\ Is("c.end") /\ UNCHANGED <<owner, state, ivs, uses>>
          /\ \A a \in DOMAIN ivs : ~ivs[a].ok =>
               \E b \in DOMAIN ivs : b # a /\ ivs[b].ok /\ ivs[b].oc < ivs[a].or /\ (ivs[b].cr = 0 \/ ivs[a].oc < ivs[b].cr)
          /\ Ev.lockAtEnd = (\E a \in DOMAIN ivs : ivs[a].ok /\ ivs[a].cr = 0)
-Next == TReset \/ TOpen \/ TClose \/ TUse \/ TProc \/ TCOpenRet \/ TCCloseRet \/ TCUseRet \/ TCEnd
+\* a Close whose final flush is held up: it returns only after its workers have stopped (it does not give the directory away
+\* while they can still write to it)
+TSlowClose == Is("slowclose") /\ UNCHANGED <<owner, state, ivs, uses>> /\ ~Ev.early /\ ~Ev.secondOpen /\ Ev.dirSame
+Next == TSlowClose \/ TReset \/ TOpen \/ TClose \/ TUse \/ TProc \/ TCOpenRet \/ TCCloseRet \/ TCUseRet \/ TCEnd
 Spec == Init /\ [][Next]_<<l, owner, state, ivs, uses>>
 Accepted == LET d == TLCGet("stats").diameter IN PrintT("CONSUMED " \o ToString(d - 1))
 =============================================================================
